@@ -1371,7 +1371,18 @@ class PolarsModel(data_algebra.data_model.DataModel):
         assert set(data.columns) == set(blocks_in.block_columns)
         # table must be keyed by record_keys + control_table_keys
         if data.shape[0] < 1:
-            return pl.DataFrame({c: [] for c in blocks_in.row_columns})
+            # no rows: the declared columns, typed as the block columns they are read from
+            ct = self.data_frame(blocks_in.control_table)
+            source_col = {
+                ct[i, vc]: vc
+                for vc in ct.columns
+                if vc not in blocks_in.control_table_keys
+                for i in range(ct.shape[0])
+            }
+            return data.select(
+                [pl.col(c) for c in blocks_in.record_keys]
+                + [pl.col(source_col[c]).alias(c) for c in blocks_in.content_keys]
+            )
         if not self.table_is_keyed_by_columns(
             data, column_names=blocks_in.record_keys + blocks_in.control_table_keys
         ):
@@ -1450,8 +1461,6 @@ class PolarsModel(data_algebra.data_model.DataModel):
         assert len(blocks_out.control_table_keys) > 0
         data = data.select(blocks_out.row_columns)
         assert set(data.columns) == set(blocks_out.row_columns)
-        if data.shape[0] < 1:
-            return pl.DataFrame({c: [] for c in blocks_out.block_columns})
         if not self.table_is_keyed_by_columns(
             data, column_names=blocks_out.record_keys
         ):
